@@ -12,6 +12,36 @@ def run(rep, tier):
     fam.add_proxy()
     suvfam_scen.extra(fam, "C16")
     fam.run(scenario=suvfam_scen.scenario)
+    exception_specifications(rep)
+
+
+def exception_specifications(rep):
+    """The contracts model exception propagation (ghost sq_thrown) and the extraction drops exception specifications; that is only faithful if no function that
+    may propagate std::bad_alloc is declared non-throwing (the exception would become std::terminate).  Supporting static fact, one obligation per specifier found:
+    a `noexcept` / `throw()` in the library's sources is accepted only on a destructor, the default constructor or the move constructor of SU_vector, whose contracts
+    prove that nothing is thrown (sq_thrown==0 in su_dtor / su_ctor_default / su_ctor_move)."""
+    import os, re, extract
+    n = 0
+    for root in ("include/SQuIDS", "include/SQuIDS/detail", "src"):
+        d = os.path.join(core.REPO, root)
+        for f in sorted(os.listdir(d)):
+            if not f.endswith((".h", ".cpp", ".tcc")):
+                continue
+            txt = extract.strip_comments(open(os.path.join(d, f)).read())
+            for m in re.finditer(r'\bnoexcept\b(?!\s*\(\s*false\s*\))|\bthrow\s*\(\s*\)', txt):
+                line = txt.count("\n", 0, m.start()) + 1
+                start = max(txt.rfind(";", 0, m.start()), txt.rfind("}", 0, m.start()), txt.rfind("{", 0, m.start())) + 1
+                decl = " ".join(txt[start:m.end()].split())
+                ok = bool(re.search(r'~\s*SU_vector\s*\(|\bSU_vector\s*\(\s*\)|\bSU_vector\s*\(\s*SU_vector\s*&&', decl))
+                n += 1
+                oid = "C16.exception_specification.%s.%d" % (f, line)
+                rep.add(oid, decl[:120], "L1", "static-scan", "discharged" if ok else "failed", 0.0, "%s/%s:%d" % (root, f, line),
+                        "" if ok else "non-throwing exception specification on a function whose contract allows std::bad_alloc to propagate: `%s`" % decl[:200])
+                if not ok:
+                    path = core.write_replay("C16", oid, dict(obligation=oid, declaration=decl, verifier_output="static scan of exception specifications", reproduced=None))
+                    rep.violation(oid, path, nofail=True)
+    rep.rule("exception_specifications.found", n)
+    rep.assume("exception specifications: %d non-throwing specifier(s) in include/SQuIDS, include/SQuIDS/detail, src (each one is an obligation)" % n)
 
 
 def replay(path):
